@@ -648,6 +648,10 @@ func checkOptions(options Options) error {
 	if options.SyncStrategy == Threshold && options.BytesPerSync == 0 {
 		return errors.New("SyncStrategy should not never be 0")
 	}
+	// 未知的索引类型会使 NewShardedIndex 在获得目录锁之后 panic
+	if options.IndexType != index.BTree && options.IndexType != index.SkipList && options.IndexType != index.HashMap {
+		return errors.New("unsupported index type")
+	}
 	return nil
 }
 
